@@ -630,15 +630,25 @@ fn run_gen_thread(
         Err(TestError::Fail(reason, found)) => {
             // reduce the failing tape (same signature must keep failing), then re-run it for the detail
             let sig = reason.message().to_string();
-            let minimal = shrink_tape(f, &w, found, &sig, known, prop_id, 600);
-            let mut tape = Tape::new(&minimal);
-            let fail = match f(&mut tape, &w) {
-                Err(fail) => fail,
-                Ok(_) => Fail::new(
-                    "flaky:minimal-case-passed-on-rerun",
-                    "the shrunk case did not fail when re-executed (non-deterministic behaviour)",
-                    json!({"first_signature": sig}),
-                ),
+            let (minimal, shrunk_fail) = shrink_tape(f, &w, found, &sig, known, prop_id, 600);
+            let fail = match shrunk_fail {
+                Some(fl) => fl,
+                None => {
+                    // the failure did not reproduce once while reducing (schedule dependent?): try the found tape again
+                    let mut got = None;
+                    for _ in 0..10 {
+                        let mut tape = Tape::new(&minimal);
+                        if let Err(fl) = f(&mut tape, &w) {
+                            got = Some(fl);
+                            break;
+                        }
+                    }
+                    got.unwrap_or_else(|| Fail::new(
+                        format!("flaky:{sig}"),
+                        "the failing case did not fail again in 10 re-executions (non-deterministic behaviour of the tool); signature of the first failure kept",
+                        json!({"first_signature": sig}),
+                    ))
+                }
             };
             let nonzero = minimal.iter().filter(|x| **x != 0).count();
             let replay = json!({
@@ -799,10 +809,11 @@ fn shrink_tape(
     known: &[KnownFinding],
     prop_id: &str,
     budget: usize,
-) -> Vec<u16> {
+) -> (Vec<u16>, Option<Fail>) {
     let mut best = start;
     let mut evals = 0usize;
     let t_start = Instant::now();
+    let last_fail: std::cell::RefCell<Option<Fail>> = std::cell::RefCell::new(None);
     let mut still_fails = |cand: &[u16], evals: &mut usize| -> bool {
         *evals += 1;
         let mut t = Tape::new(cand);
@@ -811,10 +822,22 @@ fn shrink_tape(
             w.cleanup();
         }
         match r {
-            Err(fail) => fail.signature == sig && is_known(known, prop_id, &fail.signature).is_none(),
+            Err(fail) => {
+                let same = fail.signature == sig && is_known(known, prop_id, &fail.signature).is_none();
+                if same {
+                    *last_fail.borrow_mut() = Some(fail);
+                }
+                same
+            }
             Ok(_) => false,
         }
     };
+    // detail of the failure on the tape as found (a few attempts for schedule-dependent failures)
+    for _ in 0..4 {
+        if still_fails(&best, &mut evals) {
+            break;
+        }
+    }
     let over = |evals: usize| evals >= budget || t_start.elapsed().as_secs() > 90;
     // 1. cut the tail (zeros are implied)
     while best.len() > 1 && !over(evals) {
@@ -871,7 +894,8 @@ fn shrink_tape(
     while best.last() == Some(&0) {
         best.pop();
     }
-    best
+    let lf = last_fail.borrow_mut().take();
+    (best, lf)
 }
 
 /// Re-run one saved case. Returns exit code.
